@@ -20,10 +20,19 @@ Definition res_eqb (a b : res) : bool :=
   | RNone, RNone => true
   | _, _ => false
   end.
+(* agreement in the sense of the property: the same value, or an error under both spellings *)
+Definition res_agree (a b : res) : bool :=
+  match a, b with
+  | ROk x, ROk y => bytes_eqb x y
+  | RErr _, RErr _ => true
+  | RNone, RNone => true
+  | _, _ => false
+  end.
 Definition is_bad (r : res) : bool := match r with RBad => true | _ => false end.
 
 Record case := mkCase {
   c_g : string; c_url : string; c_f : string;
+  c_arg0 : string;            (* source text of the first argument ("" if none) *)
   r_gpos : res; r_mpos : res; r_gnamed : res; r_mnamed : res; r_gcall : res; r_mcall : res }.
 
 Definition documented (c : case) : bool :=
@@ -42,18 +51,24 @@ Definition corr (c : case) : Z :=
 (* the property on the implementation's answers *)
 Definition none_bad (c : case) : bool :=
   negb (is_bad (r_gpos c) || is_bad (r_mpos c) || is_bad (r_gnamed c) || is_bad (r_mnamed c) || is_bad (r_gcall c) || is_bad (r_mcall c)).
-Definition clause_forms (c : case) : bool := none_bad c && res_eqb (r_gpos c) (r_mpos c).
-Definition named_ok (p n : res) : bool := match n with RNone => true | _ => res_eqb p n end.
+Definition clause_forms (c : case) : bool := none_bad c && res_agree (r_gpos c) (r_mpos c).
+Definition named_ok (p n : res) : bool := match n with RNone => true | _ => res_agree p n end.
 Definition clause_named (c : case) : bool :=
   none_bad c && named_ok (r_gpos c) (r_gnamed c) && named_ok (r_mpos c) (r_mnamed c).
 Definition clause_call (c : case) : bool :=
-  none_bad c && res_eqb (r_gpos c) (r_gcall c) && res_eqb (r_mpos c) (r_mcall c).
+  none_bad c && res_agree (r_gpos c) (r_gcall c) && res_agree (r_mpos c) (r_mcall c).
+
+(* known finding K1 (input-only class): the separately defined global `grayscale` applied to a colour
+   written in hsl()/hsla()/hwb() form answers in rgb form, color.grayscale keeps the hsl form *)
+Definition known_K1 (c : case) : bool :=
+  String.eqb (c_g c) "grayscale"
+  && (String.prefix "hsl" (c_arg0 c) || String.prefix "hwb" (c_arg0 c)).
 
 Definition b2z (b : bool) : Z := if b then 1%Z else 0%Z.
 Definition any_ok (c : case) : bool :=
   match r_gpos c, r_mpos c with ROk _, _ | _, ROk _ => true | _, _ => false end.
 
-(* [corr; forms; named; call; same object?; some spelling succeeded?] *)
+(* [corr; forms; known class of forms; named; call; same object?; some spelling succeeded?] *)
 Definition run (c : case) : list Z :=
-  [corr c; b2z (clause_forms c); b2z (clause_named c); b2z (clause_call c);
+  [corr c; b2z (clause_forms c); (if known_K1 c then 1 else 0)%Z; b2z (clause_named c); b2z (clause_call c);
    b2z (same_object (c_g c) (c_url c) (c_f c)); b2z (any_ok c)].
